@@ -88,6 +88,7 @@ def fuzz_stage(ctx, quick, pool):
     cases += c08_fuzz.bomb_cases(ctx.rng, [8] if quick else [8, 64, 200])
     cases += c08_fuzz.ecpoint_cases(ctx.rng)
     second = c08_fuzz.second_step_cases(ctx.rng, profiles, quick)
+    second += c08_fuzz.cv_scheme_cases(ctx.rng, profiles)
     for i, c in enumerate(cases):
         c08_fuzz.resolve_target(c, profiles)
         c.setdefault('mem', i % 6 == 0)
